@@ -36,7 +36,7 @@ REAL_VS_STUB = {
     "stub": ["review answers", "the user (edits, flags, -k selection)"],
 }
 DATA = ["alpha", "beta", "gamma", "delta", "x" * 40, "line1\nline2\n", "ünï", ""]
-SUFFIX = [None, None, ".txt", ".bin", ".log", ".json"]
+SUFFIX = [None, None, ".txt", ".bin", ".log", ".json", ".mp4", ".JSON", ".h5", ".7z", "."]
 CATS = ["create", "fix", "trim", "update"]
 
 
